@@ -280,7 +280,19 @@ class Lib:
                 # std::move(*this): the operation hands itself to its next continuation
                 em.uses_moved_self = True
                 return '(*(g_moved_self++, %s))' % em.e(x['inner'][0])
+            at = em.T(qt(args[0]))
+            if name == 'move' and x.get('valueCategory') == 'lvalue' and em.opaque_ok:
+                if at.kind == 'vec':
+                    # the moved-from vector is left empty (libstdc++; assumed)
+                    return '%s_take(%s)' % (at.c, em.addr(args[0]))
+                if at.kind == 'rec' and em.handler_fields(at):
+                    return '%s(%s)' % (em.record_mover(at), em.addr(args[0]))
+                if at.kind == 'opq' and 'any_completion_handler' in (at.name or ''):
+                    return 'opq_take(%s)' % em.addr(args[0])
             return em.e(args[0])
+        if name in ('ref', 'cref') and len(args) == 1 and em.opaque_ok:
+            # std::ref(x): a handle to x, x itself untouched
+            return '((opq_t)(long)%s)' % em.addr(args[0])
         if name == 'make_pair' and len(args) == 2:
             ti = em.T(qt(n))
             return '%s_make(%s, %s)' % (ti.c, em.e(args[0]), em.e(args[1]))
@@ -299,6 +311,25 @@ class Lib:
                 return '0x7fffffff'
             if t.c == 'unsigned int':
                 return '0xffffffffu'
+        if name in ('find_if', 'remove_if') and len(args) == 3:
+            t0 = em.T(qt(args[0]))
+            if t0.kind in ('vit', 'ptr'):
+                clo = em.addr(args[2])
+                cti = em.T(qt(args[2]))
+                ops = em.lambda_ops.get(cti.c.replace('struct ', ''), [])
+                if len(ops) == 1:
+                    nm = '%s__%s__%s' % (name, t0.elem.mangle(), ops[0])
+                    self.gen_once(nm, 'DEF_%s_PTR(%s, %s, %s, %s)' % (name.upper(), nm, t0.elem.c, cti.c, ops[0]))
+                    return '%s(%s, %s, %s)' % (nm, em.e(args[0]), em.e(args[1]), clo)
+        if name == 'stable_sort' and len(args) == 2:
+            t0 = em.T(qt(args[0]))
+            if t0.kind in ('vit', 'ptr') and t0.elem.kind == 'rec':
+                less = self.find_member_operator(em, 'operator<', t0.elem)
+                nm = 'stable_sort__' + t0.elem.mangle()
+                self.gen_once(nm, 'DEF_STABLE_SORT_PTR(%s, %s, %s)' % (nm, t0.elem.c, less))
+                return '%s(%s, %s)' % (nm, em.e(args[0]), em.e(args[1]))
+        if name == 'make_move_iterator' and len(args) == 1:
+            return em.e(args[0])
         if name == 'any_of' and len(args) == 3:
             t0 = em.T(qt(args[0]))
             if t0.kind in ('vit', 'ptr'):
@@ -330,6 +361,12 @@ class Lib:
                 d = em.e(args[1]) if len(args) > 1 and args[1].get('kind') != 'CXXDefaultArgExpr' else '1'
                 return '(%s %s %s)' % (em.e(args[0]), '-' if name == 'prev' else '+', d)
         return None
+
+    def find_member_operator(self, em, opname, ti):
+        for c in em.all_members(ti.decl):
+            if c.get('kind') == 'CXXMethodDecl' and c.get('name') == opname and has_body(c):
+                return em.want(c)
+        return self.find_operator(em, opname, ti)
 
     def find_operator(self, em, opname, ti):
         """repository free/friend operator on record type ti"""
@@ -367,6 +404,9 @@ class Lib:
                 return '((%s)->has = 0)' % o
             if m == 'emplace' and len(args) == 1:
                 return '%s_emplace(%s, %s)' % (inner.c, o, em.e(args[0]))
+        if inner.kind == 'opq' and 'any_completion_handler' in (inner.name or ''):
+            if m == 'operator bool':
+                return '((*%s) != 0)' % o if not arrow else '((*%s) != 0)' % o
         if inner.kind == 'uptr':
             if m == 'get':
                 return '(*%s)' % o
@@ -391,8 +431,13 @@ class Lib:
                'clear': 'clear', 'operator[]': 'at', 'erase': 'erase', 'insert': 'insert'}
         if m not in tbl:
             return None
+        real = [x for x in args if x.get('kind') != 'CXXDefaultArgExpr']
         f = '%s_%s' % (ti.c, tbl[m])
-        a = [o] + [em.e(x) for x in args if x.get('kind') != 'CXXDefaultArgExpr']
+        if m == 'erase' and len(real) == 2:
+            f = '%s_erase_range' % ti.c
+        if m == 'insert' and len(real) == 3:
+            f = '%s_insert_range' % ti.c
+        a = [o] + [em.e(x) for x in real]
         call = '%s(%s)' % (f, ', '.join(a))
         if m in ('back', 'front', 'operator[]'):
             return '(*%s)' % call
@@ -432,6 +477,10 @@ class Lib:
                 if t1.kind == 'nullopt':
                     return '(%s.has = 0)' % em.e(args[0])
                 return '(%s = %s_some(%s))' % (em.e(args[0]), t0.c, em.e(args[1]))
+        if t0.kind == 'opq' and 'any_completion_handler' in (t0.name or ''):
+            # emptiness of a type-erased handler is the zero handle
+            if name == 'operator!':
+                return '(%s == 0)' % em.e(args[0])
         if t0.kind == 'uptr':
             if name == 'operator*':
                 return '(*%s)' % em.e(args[0])
